@@ -272,7 +272,11 @@ Fixpoint m_registered (e : senv) (m : member) : bool :=
 Definition join_ok (e : senv) (k : jkind) (ms : list member) : bool :=
   forallb (m_supported k) ms &&
   uses_ok m_sid [] ms && uses_ok m_cs [] ms &&
-  match first_cands e NS.empty ms with Some _ => true | None => false end &&
+  (* an iteration needs a member that bounds it; a lookup does not (all members may be optional) *)
+  match k with
+  | JLendGet _ | JLendIdx _ => true
+  | _ => match first_cands e NS.empty ms with Some _ => true | None => false end
+  end &&
   negb (Nat.eqb (length ms) 0) && Nat.leb (length ms) 8.
 
 (* the harness resolves every handle position before anything is fetched: a position that was never returned
